@@ -90,7 +90,8 @@ CHECKS = {
                 " D7.6: both scratch tables have an integer type covering -1 .. days-1 (a type taken from an attribute is looked up where it is assigned)."
                 " Errors.evaluate hands the plan, every instance limit and both scratch tables to the kernel parameter of the same name."
                 " The declared upper bound equals / dominates the bound derived from the reference step and no closed-form witness plan family exceeds it for settings the Instance constructor accepts."
-                " The TTP Instance constructor stores every limit parameter in the field of its own name (sibling rule over the check_int_range lines).",
+                " The TTP Instance constructor stores every limit parameter in the field of its own name (sibling rule over the check_int_range lines)."
+                " Witness families for the declared bound: alternating, one-sided, all byes, every team hosts its cyclic successor.",
         "design_ref": "DESIGN.md section 4, C07 and 10.2",
         "note": "By induction over the scan the returned value is the "
                 "documented per-rule count, hence 0 exactly for plans that "
@@ -120,7 +121,8 @@ CHECKS = {
                 "with linearised sums and canonical ceilings compared with "
                 "a transcription of equations 6-7), the range of q, the "
                 "orientation, the argument binding of the driver and the "
-                "CUTSQ procedure.",
+                "CUTSQ procedure."
+                " The working copy of S3 used by the greedy pairing keeps the non-increasing order of S3.",
         "design_ref": "DESIGN.md section 4, C03 and 10.2",
         "note": "Validity of the DAMV bound itself is the theorem of the "
                 "paper and is not re-proved: the check decides agreement "
@@ -171,7 +173,8 @@ CHECKS = {
                 "parity except in the last of an odd number of rounds, so "
                 "home/away roles per pairing differ by at most one."
                 " An `else` of the day scan that leaves the loop over the games is reported (later games would be lost)."
-                " The game loop visits the whole permutation: a slice is compared with the number of games for n = 2..9 teams and 1..4 rounds by evaluating its bound polynomial.",
+                " The game loop visits the whole permutation: a slice is compared with the number of games for n = 2..9 teams and 1..4 rounds by evaluating its bound polynomial."
+                " The plan array is allocated with the instance's game_plan_dtype = int_range_to_dtype(-n, n), which holds every entry the decoder stores (D15.5).",
         "design_ref": "DESIGN.md section 4, C15",
         "note": "Does NOT decide the home/away balance per TEAM in the "
                 "special last round (parity argument over the triangular "
@@ -250,7 +253,8 @@ CHECKS = {
                 "objective's name."
                 " Whatever Hardness.evaluate keeps in self between evaluations depends on the evaluated instance only through its name (the memo key)."
                 " Positional constructor arguments of the result record are bound through the constructor's signature."
-                " Packing.from_log hands the given instance to the parser, which keeps it in the field the PackingSpace is built from (D12.7).",
+                " Packing.from_log hands the given instance to the parser, which keeps it in the field the PackingSpace is built from (D12.7)."
+                " In the experiment modules and examples every parameter of a function that builds or configures an Execution is read in its body (D12.8).",
         "design_ref": "DESIGN.md section 4, C12",
         "note": "Does NOT decide run behaviour: termination within budget, "
                 "feasibility of final solutions, logged value = "
@@ -440,7 +444,8 @@ CHECKS = {
                 "kernel/register/evaluate wiring and the h-table size are "
                 "checked by symbolic dataflow."
                 " The kernel rules are path-wise: every path through a move kernel is followed symbolically; paths that write the tour must entail the acceptance criterion, reverse x[i..j] exactly once and return y + the 2-opt delta; every other path must entail the negated criterion and return y."
-                " When index arithmetic is not a pure ordering question, the move index contract is decided by evaluating the symbolic index expressions and path condition for all draws of instances with 2..8 cities (a counterexample is a finding, none is undecided).",
+                " When index arithmetic is not a pure ordering question, the move index contract is decided by evaluating the symbolic index expressions and path condition for all draws of instances with 2..8 cities (a counterexample is a finding, none is undecided)."
+                " The frequency table is logged with offset 0, the offset of its indexing (D6.6).",
         "design_ref": "DESIGN.md section 4, C06",
         "note": "Decides D6.1-D6.5; the induction 'every registered y is "
                 "the true length' is by composition with C05. Trusted: "
